@@ -43,6 +43,7 @@ def shapes(tier, seed):
         out.append(('plain', carrier, 'POST', 'HTTP/1.1', 'bytes', True))      # folding on, non-form body
         out.append(('form', carrier, 'POST', 'HTTP/1.1', 'bytes', True))       # folded
         out.append(('form', carrier, 'POST', 'HTTP/2.0', 'vec', True))
+        out.append(('form-samenames', carrier, 'POST', 'HTTP/1.1', 'bytes', True))
         out.append(('form', carrier, 'POST', 'HTTP/1.1', 'bytes', False))      # form body, folding off
     return out
 
@@ -61,18 +62,23 @@ def run_shape(prog, shape, tier, seed, res):
             ctx.assume(z3.And(z3.UGE(e.v, 0x21), z3.ULE(e.v, 0x7E)))
         headers = [('x-multi', hv1), ('host', conc_bytes('h')), ('x-unsigned', conc_bytes('  keep  me ')), ('x-multi', hv2)]
         signed = ['host', 'x-multi']
-        if kind == 'form':
+        if kind in ('form', 'form-samenames'):
             headers.append(('content-type', conc_bytes(FORM)))
             bv = Int('u8', ctx.fresh_bv('bv', 8))
             ctx.assume(zb(R.unreserved_f(bv)))
-            bodyb = conc_bytes('b=') + [bv] + conc_bytes('&a=2')
-            body_pairs = [(conc_bytes('b'), [bv]), (conc_bytes('a'), conc_bytes('2'))]
+            if kind == 'form':
+                bodyb = conc_bytes('b=') + [bv] + conc_bytes('&a=2')
+                body_pairs = [(conc_bytes('b'), [bv]), (conc_bytes('a'), conc_bytes('2'))]
+            else:
+                # the body only repeats a name that the URL query already has
+                bodyb = conc_bytes('a=') + [bv]
+                body_pairs = [(conc_bytes('a'), [bv])]
         else:
             bodyb = sym_bytes(ctx, 'body', 3) if bk != 'unit' else []
             body_pairs = []
         url_pairs = [(conc_bytes('a'), conc_bytes('1'))]
         wire_q = conc_bytes('a=1')
-        folded = fold and kind == 'form'
+        folded = fold and kind in ('form', 'form-samenames')
         cpath = conc_bytes('/r') + [pb]
         cred = conc_bytes(AKID + '/' + SCOPE)
         hash_body = [] if folded else bodyb
@@ -178,12 +184,12 @@ def concrete_request(shape, rnd):
     kind, carrier, method, version, bk, fold = shape
     headers = [['x-multi', b'v1'.hex()], ['host', b'h'.hex()], ['x-unsigned', b'  keep  me '.hex()], ['x-multi', b'v2'.hex()]]
     signed = ['host', 'x-multi']
-    if kind == 'form':
+    if kind in ('form', 'form-samenames'):
         headers.append(['content-type', FORM.encode().hex()])
-        body = b'b=Q&a=2'
+        body = b'b=Q&a=2' if kind == 'form' else b'a=Q'
     else:
         body = bytes(rnd.randrange(256) for _ in range(3)) if bk != 'unit' else b''
-    folded = fold and kind == 'form'
+    folded = fold and kind in ('form', 'form-samenames')
     uri = '/rX?a=1'
     if carrier == 'header':
         headers.append(['x-amz-date', TS.encode().hex()])
